@@ -47,6 +47,8 @@ class World:
         self._expr_cache = {}
         self._class_mod = {}
         self.modules = {}
+        self.comp_funcs = {}
+        self.comp_by_func = {}
         self.quantified_search = False   # emit the quantified half of the first-occurrence axioms
         self.range_facts = False         # emit "every byte is 0..255" / "every code point is valid"
 
